@@ -810,6 +810,9 @@ func (c *Conn) flush() error {
 	}
 
 	if len(c.writeList) == 0 {
+		// Nothing to flush, the writing event is not needed any more,
+		// e.g. a dialer that was connected at once keeps it since addDialer.
+		c.resetRead()
 		return nil
 	}
 
